@@ -692,7 +692,12 @@ func TestC12(t *testing.T) {
 	)
 	rapid.Check(t, func(rt *rapid.T) {
 		var ps []string
-		for i := rapid.IntRange(1, 3).Draw(rt, "npat"); i > 0; i-- {
+		// mostly one to three patterns; now and then as many as the listing of the step table numbers with one more digit
+		npat := rapid.IntRange(1, 3).Draw(rt, "npat")
+		if rapid.IntRange(0, 7).Draw(rt, "many-patterns") == 0 {
+			npat = rapid.SampledFrom([]int{9, 10, 11, 12, 99, 100, 101, 128}).Draw(rt, "npat-many")
+		}
+		for i := npat; i > 0; i-- {
 			ps = append(ps, patGen.Draw(rt, "pattern"))
 		}
 		c12Eval(rt, c12Case{Data: []byte("parameters: {a: 1}\nservices:\n  s: {constructor: fx/lib.NewObj}\n"), Flags: uint8(rapid.IntRange(0, 15).Draw(rt, "flags")), Shape: 4, Patterns: ps, Label: "glob-patterns"})
